@@ -442,4 +442,110 @@ theorem tie_fillSlice_fromArray_sem (l : List J) (c : Cfg) (isSlice : Bool) :
   · simp [fromArrayBlock]
   · simp [fromArrayValue]
 
+/-! ### round 4: front ends, glue between the packages, valuers -/
+
+/-- core/mapping/valuer.go: `simpleValuer` looks at the current node only; `Parent()` wraps the parent in a `recursiveValuer`;
+`recursiveValuer.Value`: current node, else the parent chain; two objects are merged by adding the parent's entries under the keys the
+child does not bind (`if _, ok := vm[k]; !ok { vm[k] = v }`) — `Model.simpleValue`, `Model.recValueM`, `Model.mergeMissing`;
+`createValuer` picks the recursive valuer exactly for `inherit` -/
+theorem tie_valuer :
+    simpleValuerValueShape =
+      ["call sv.current.Value", "return"] ∧
+    simpleValuerParentShape =
+      ["if sv.parent == nil {", "return", "}", "call sv.parent.Parent", "return"] ∧
+    recursiveValuerValueShape =
+      ["call rv.current.Value", "if !ok {", "call rv.Parent", "if parent != nil {", "call parent.Value", "return",
+      "}", "return", "}", "if !ok {", "return", "}", "call rv.Parent", "if parent == nil {", "return", "}",
+      "call parent.Value", "if !ok {", "return", "}", "if !ok {", "return", "}", "range pm {", "if !ok {",
+      "mapset vm", "}", "}", "return"] ∧
+    recursiveValuerParentShape =
+      ["if rv.parent == nil {", "return", "}", "call rv.parent.Parent", "return"] ∧
+    mapValuerValueShape =
+      ["return"] ∧
+    createValuerShape =
+      ["if opts.inherit() {", "call v.Parent", "return", "}", "call v.Parent", "return"] := by
+  refine ⟨?_, ?_, ?_, ?_, ?_, ?_⟩ <;> decide
+
+/-- `UnmarshalYamlBytes` / `UnmarshalTomlBytes` (and the Reader forms): convert with `encoding.YamlToJson` / `TomlToJson`, an error of the
+conversion is returned, else `UnmarshalJsonBytes(b, v, opts...)` — the content, the target and *the options* are forwarded -/
+theorem tie_yamlTomlForwarding :
+    unmarshalYamlBytesCalls =
+      ["call encoding.YamlToJson(content)", "return err", "return UnmarshalJsonBytes(b, v, opts...)"] ∧
+    unmarshalTomlBytesCalls =
+      ["call encoding.TomlToJson(content)", "return err", "return UnmarshalJsonBytes(b, v, opts...)"] ∧
+    unmarshalYamlReaderCalls =
+      ["call io.ReadAll(reader)", "return err", "return UnmarshalYamlBytes(b, v, opts...)"] ∧
+    unmarshalTomlReaderCalls =
+      ["call io.ReadAll(r)", "return err", "return UnmarshalTomlBytes(b, v, opts...)"] := by
+  refine ⟨?_, ?_, ?_, ?_⟩ <;> decide
+
+/-- core/mapping/jsonunmarshaler.go: options ⇒ a fresh unmarshaler under the `json` key with them, none ⇒ the shared one; the decoded
+document and the target are handed to `Unmarshal` -/
+theorem tie_jsonForwarding :
+    unmarshalJsonBytesCalls =
+      ["return unmarshalJsonBytes(content, v, getJsonUnmarshaler(opts...))"] ∧
+    unmarshalJsonMapCalls =
+      ["return getJsonUnmarshaler(opts...).Unmarshal(m, v)"] ∧
+    getJsonUnmarshalerCalls =
+      ["call len(opts)", "return NewUnmarshaler(jsonTagKey, opts...)", "return jsonUnmarshaler"] ∧
+    unmarshalJsonBytesInnerCalls =
+      ["call jsonx.Unmarshal(content, &m)", "return err", "return unmarshaler.Unmarshal(m, v)"] := by
+  refine ⟨?_, ?_, ?_, ?_⟩ <;> decide
+
+/-- core/conf: `LoadFromJsonBytes` decodes, lowers the field keys, unmarshals with `WithCanonicalKeyFunc(toLowerCase)` (the model's
+`Cfg.lower`, `toLowerCase = strings.ToLower`), an error is returned; YAML / TOML convert first and forward to it; the file loaders by extension -/
+theorem tie_confForwarding :
+    confLoadFromJsonBytesCalls =
+      ["call buildFieldsInfo(reflect.TypeOf(v), \"\")", "call reflect.TypeOf(v)", "return err",
+      "call jsonx.Unmarshal(content, &m)", "return err", "call toLowerCaseKeyMap(m, info)",
+      "call mapping.UnmarshalJsonMap(lowerCaseKeyMap, v, mapping.WithCanonicalKeyFunc(toLowerCase))",
+      "call mapping.WithCanonicalKeyFunc(toLowerCase)", "return err", "return validate(v)"] ∧
+    confLoadFromYamlBytesCalls =
+      ["call encoding.YamlToJson(content)", "return err", "return LoadFromJsonBytes(b, v)"] ∧
+    confLoadFromTomlBytesCalls =
+      ["call encoding.TomlToJson(content)", "return err", "return LoadFromJsonBytes(b, v)"] ∧
+    confToLowerCaseCalls =
+      ["return strings.ToLower(s)"] ∧
+    confLoaders =
+      ["\".json\": LoadFromJsonBytes", "\".toml\": LoadFromTomlBytes", "\".yaml\": LoadFromYamlBytes",
+      "\".yml\": LoadFromYamlBytes"] := by
+  refine ⟨?_, ?_, ?_, ?_, ?_⟩ <;> decide
+
+/-- `conf.Load`: read the file, pick the loader by the lower-cased extension, run it (after `os.ExpandEnv` under `UseEnv`), its error is returned -/
+theorem tie_confLoadShape :
+    confLoadShape =
+      ["call os.ReadFile", "if err != nil {", "return", "}", "call path.Ext", "if !ok {", "return", "}",
+      "range opts {", "call o", "}", "if opt.env {", "call os.ExpandEnv", "call ?", "call loader", "return", "}",
+      "call loader", "if err != nil {", "return", "}", "call validate", "return"] := by
+  decide
+
+/-- `toLowerCaseKeyMap`: keys in sorted order; an exact field key, else the lower-cased key if it names a field, else (map field / nested
+object / anything) the key as it is — every binding is kept (`mapset res` on each path): the harness observes the result and the driver's
+`docEquiv` monitor checks that it holds the supplied values under keys equal up to case -/
+theorem tie_confLowerKeyMapShape :
+    confLowerKeyMapShape =
+      ["range m {", "}", "call sort.Strings", "range keys {", "if ok {", "call toLowerCaseInterface", "mapset res",
+      "continue", "}", "call toLowerCase", "if ok {", "call toLowerCaseInterface", "mapset res", "}", "else{",
+      "if info.mapField != nil {", "call toLowerCaseInterface", "mapset res", "}", "else{", "if ok {",
+      "call toLowerCaseKeyMap", "mapset res", "}", "else{", "mapset res", "}", "}", "}", "}", "return"] := by
+  decide
+
+/-- rest/httpx: `ParseHeaders` forwards `r.Header` to `encoding.ParseHeaders`; `ParseForm` = `GetFormValues` then the form unmarshaler;
+`ParsePath` = the path variables through the path unmarshaler; `ParseJsonBody` = the body through `UnmarshalJsonReader` when there is a
+JSON body, else `UnmarshalJsonMap(nil, v)` (`Model.httpParsePath/Form/Headers/JsonBody`) -/
+theorem tie_httpParseParts :
+    httpParseHeadersCalls =
+      ["return encoding.ParseHeaders(r.Header, v)"] ∧
+    httpParseFormCalls =
+      ["call GetFormValues(r)", "return err", "return formUnmarshaler.Unmarshal(params, v)"] ∧
+    httpParsePathCalls =
+      ["call pathvar.Vars(r)", "call make(map[string]any, len(vars))", "call len(vars)",
+      "return pathUnmarshaler.Unmarshal(m, v)"] ∧
+    httpParseJsonBodyCalls =
+      ["call withJsonBody(r)", "call io.LimitReader(r.Body, maxBodyLen)",
+      "return mapping.UnmarshalJsonReader(reader, v)", "return mapping.UnmarshalJsonMap(nil, v)"] ∧
+    httpWithJsonBodyCalls =
+      ["return r.ContentLength > 0 && strings.Contains(r.Header.Get(header.ContentType), header.ApplicationJson)"] := by
+  refine ⟨?_, ?_, ?_, ?_, ?_⟩ <;> decide
+
 end GoZero.C08.Tie
